@@ -12,6 +12,7 @@ Statements
                             k >= 4: func.call @loc<k % 2>(value, condition), a function defined in the module that sets up and launches an
                             accelerator (loc0: inside a conditional, loc1: at its top level); never annotated
   ["pure", opname, vref, vref]
+  ["pure2", vref, vref]       arith.mului_extended: two results of the same type, both added to the value pool
 A vref is an int taken modulo the number of values visible at that point (arguments, constants, induction
 variables, loop-carried block arguments, pure results, loop results), so every recipe builds valid IR.
 """
@@ -73,7 +74,7 @@ def _stmts(accs, depth, max_stmts, calls=True, pure=True, carried=True, unit_wei
             if pure:
                 kinds += ["pure"]
             if pure:
-                kinds += ["chain_unit"]
+                kinds += ["chain_unit", "two_results"]
             if depth > 1:
                 kinds += ["if_chain"]
             if calls or pure:
@@ -83,6 +84,22 @@ def _stmts(accs, depth, max_stmts, calls=True, pure=True, carried=True, unit_wei
             if depth > 1:
                 kinds += ["loop_if", "if_restore"]
             k = draw(st.sampled_from(kinds))
+            if k == "two_results":
+                # a pure op with two results of the same type (low and high word of a product); one unit takes a field from the first
+                # result, the next unit takes the same field from the second (or the other way round)
+                a = draw(st.integers(0, len(accs) - 1))
+                nf = len(accs[a][1])
+                out.append(["pure2", draw(_vref()), draw(_vref())])
+                base = [draw(st.sampled_from([-1, -2, draw(st.integers(0, 9))])) for _ in range(nf)]
+                f = draw(st.integers(0, nf - 1))
+                first, second = draw(st.sampled_from([(-2, -1), (-1, -2)]))
+                u1, u2 = list(base), list(base)
+                u1[f], u2[f] = first, second
+                out.append(["unit", a, u1, None])
+                if calls and draw(st.integers(0, 4)) == 0:
+                    out.append(["call", True, draw(st.integers(0, 1))])
+                out.append(["unit", a, u2, None])
+                continue
             if k == "if_restore":
                 # both branches of a conditional leave field F at the same value A (other fields differ); behind it one unit changes F,
                 # the next one restores it to A; the units share no other value, so nothing else around them is rewritten.  Optionally
@@ -466,6 +483,12 @@ def build(recipe, ty=None, extra_module_ops="", func_name="main") -> Built:
                 r = fresh("x")
                 out.append(f'{pad}{r} = "arith.{opn}"({vref(x, vals)}, {vref(y, vals)}) : ({ty}, {ty}) -> {ty}')
                 vals.append(r)
+            elif k == "pure2":
+                _, x, y = s
+                r0, r1 = fresh("x"), fresh("x")
+                out.append(f'{pad}{r0}, {r1} = "arith.mului_extended"({vref(x, vals)}, {vref(y, vals)}) : ({ty}, {ty}) -> ({ty}, {ty})')
+                vals.extend([r0, r1])
+                b.features.add("two_result_pure_op")
             elif k == "call":
                 _, annotated, kk = s
                 if kk < 4 and kk % 4 == 2:
